@@ -1070,7 +1070,46 @@ def run_lazy_init_mutable(ctx, i, rng):
     ctx.check(struct_of(v1) == want and close(v1, v0), 'shape_only:init_with_output:mutable_filter', lambda: dict(case=desc))
 
 
+def run_fallback_rng(ctx, i, rng):
+  """init's output is reproduced by apply with the same inputs and the same rngs when the module draws from an rng stream that
+  is not supplied (make_rng falls back to the 'params' key): the draws of one scope, before and after the parameters of that
+  scope are created, in compact and setup style."""
+  import jax
+  import jax.numpy as jnp
+  import flax.linen as nn
+  n_before = i % 3                      # parameters created by the SAME scope before the draw
+  supplied = (i // 3) % 2 == 1          # the stream is supplied explicitly
+  in_child = (i // 6) % 2 == 1          # the draw is made by a sub-module that has no parameters of its own
+  bare_key = (i // 12) % 2 == 1 and not supplied
+  desc = dict(params_before_draw=n_before, stream_supplied=supplied, draw_in_child=in_child, init_with_bare_key=bare_key)
+  with ctx.case('fallback_rng', i, desc, nontrivial=True):
+    class Draw(nn.Module):
+      @nn.compact
+      def __call__(self, x):
+        return jax.random.normal(self.make_rng('noise'), x.shape)
+
+    class M(nn.Module):
+      @nn.compact
+      def __call__(self, x):
+        ws = [self.param('w%d' % k, nn.initializers.normal(1.0), (3,)) for k in range(n_before)]
+        n = Draw(name='draw')(x) if in_child else jax.random.normal(self.make_rng('noise'), x.shape)
+        late = self.param('late', nn.initializers.normal(1.0), (3,))
+        return x * sum(ws, late) + n
+
+    x = jnp.ones((2, 3))
+    key = jax.random.key(40 + i)
+    rngs = {'params': key, 'noise': jax.random.key(7)} if supplied else {'params': key}
+    y0, v = M().init_with_output(key if bare_key else rngs, x)
+    y1 = M().apply(v, x, rngs=rngs)
+    ctx.op('init_with_output vs apply (rng stream falls back to params)')
+    shares = n_before > 0 and not supplied and not in_child
+    ctx.check(close(y0, y1), 'reapply:output:' + ('fallback_stream_shares_params_counter' if shares else 'fallback_rng'),
+              lambda: dict(case=desc, max_diff=float(np.abs(np.asarray(y0) - np.asarray(y1)).max())))
+
+
 def run(ctx):
+  for i in ctx.indices(24, 'fallback_rng'):
+    run_fallback_rng(ctx, i, ctx.rng('fallback_rng', i))
   for i in ctx.indices(32, 'lazy_init_mutable'):
     run_lazy_init_mutable(ctx, i, ctx.rng('lazy_init_mutable', i))
   for i in ctx.indices(20, 'bound_partial_touch'):
